@@ -1238,3 +1238,103 @@ def two_part_split(p, is_subject, sep):
         return ("not-two", None, None)
     return ("two", lambda t: role(t)[0] == "prefix", lambda t: role(t)[0] == "suffix")
 
+
+# ---------------------------------------------------------------- character predicates as tables over a finite domain
+
+CHAR_DOMAIN = [chr(i) for i in range(128)] + ["\u00e9", "\u00a0", "\u0085", "\u212a", "\u0130", "\u4e2d", "\u0660"]
+_CHAR_FNS = {
+    "is_ascii_alphanumeric": lambda c: c.isascii() and c.isalnum(),
+    "is_ascii_alphabetic": lambda c: c.isascii() and c.isalpha(),
+    "is_ascii_digit": lambda c: c.isascii() and c.isdigit(),
+    "is_ascii_lowercase": lambda c: c.isascii() and c.islower(),
+    "is_ascii_uppercase": lambda c: c.isascii() and c.isupper(),
+    "is_ascii_punctuation": lambda c: c.isascii() and (33 <= ord(c) <= 47 or 58 <= ord(c) <= 64 or 91 <= ord(c) <= 96 or 123 <= ord(c) <= 126),
+    "is_ascii_whitespace": lambda c: c in "\t\n\x0c\r ",
+    "is_ascii_graphic": lambda c: 33 <= ord(c) <= 126,
+    "is_ascii": lambda c: c.isascii(),
+    "is_alphanumeric": lambda c: c.isalnum(),
+    "is_alphabetic": lambda c: c.isalpha(),
+    "is_numeric": lambda c: c.isnumeric(),
+    "is_whitespace": lambda c: c.isspace(),
+    "is_lowercase": lambda c: c.islower(),
+    "is_uppercase": lambda c: c.isupper(),
+    "is_digit": None,
+}
+
+
+def _char_eval(t, is_param, ch):
+    """value of term t when the character parameter is ch: bool / int, or None when it cannot be evaluated"""
+    t0 = strip_refs(t)
+    if is_param(t0):
+        return ord(ch)
+    if isinstance(t0, tuple) and t0 and t0[0] == "const":
+        v = t0[2]
+        if isinstance(v, tuple) and v and v[0] == "char":
+            return ord(v[1])
+        if isinstance(v, (bool, int)):
+            return v
+        return None
+    if isinstance(t0, tuple) and t0 and t0[0] == "cast":
+        return _char_eval(t0[4], is_param, ch)
+    if isinstance(t0, tuple) and t0 and t0[0] == "unop" and t0[1] == "Not":
+        v = _char_eval(t0[2], is_param, ch)
+        return (not v) if isinstance(v, bool) else None
+    if isinstance(t0, tuple) and t0 and t0[0] == "binop":
+        a, b = _char_eval(t0[2], is_param, ch), _char_eval(t0[3], is_param, ch)
+        if a is None or b is None:
+            return None
+        f = {"Eq": lambda x, y: x == y, "Ne": lambda x, y: x != y, "Lt": lambda x, y: x < y, "Le": lambda x, y: x <= y, "Gt": lambda x, y: x > y, "Ge": lambda x, y: x >= y,
+             "BitOr": lambda x, y: x | y, "BitAnd": lambda x, y: x & y, "Sub": lambda x, y: x - y, "Add": lambda x, y: x + y}.get(t0[1])
+        return f(int(a), int(b)) if f else None
+    if is_call(t0):
+        nm = mir.norm_path(t0[1]).rsplit("::", 1)[-1]
+        args = call_args(t0)
+        if nm in _CHAR_FNS and _CHAR_FNS[nm] is not None and len(args) == 1 and is_param(strip_refs(args[0])) and "char" in t0[1]:
+            return _CHAR_FNS[nm](ch)
+        if nm == "contains" and len(args) == 2 and is_param(strip_refs(args[1])):
+            rg = agg_variant(strip_refs(args[0]))
+            if rg and rg[1] in ("RangeInclusive", "Range"):
+                lo, hi = _char_eval(rg[2][0], is_param, ch), _char_eval(rg[2][1], is_param, ch)
+                if lo is not None and hi is not None:
+                    return lo <= ord(ch) <= hi if rg[1] == "RangeInclusive" else lo <= ord(ch) < hi
+        if nm in ("eq", "ne") and len(args) == 2:
+            a, b = _char_eval(args[0], is_param, ch), _char_eval(args[1], is_param, ch)
+            if a is not None and b is not None:
+                return (a == b) == (nm == "eq")
+    return None
+
+
+def char_table(paths, is_param=lambda t: t == ("param", 1), domain=None):
+    """{character: True / False / None}: what a char -> bool function answers, read off its path conditions for each character of a finite
+    domain (all of ASCII plus non-ASCII representatives); None where some condition cannot be evaluated.  No code is run: each condition
+    is a comparison with constants, a std character-class test or a range test, evaluated on the constant."""
+    out = {}
+    rets = ret_paths(paths or [])
+    for ch in (domain or CHAR_DOMAIN):
+        res = set()
+        unknown = False
+        for p in rets:
+            ok = True
+            for c in p.conds():
+                v = _char_eval(c.term, is_param, ch)
+                if v is None:
+                    unknown = True
+                    ok = False
+                    break
+                if c.fact[0] == "eq":
+                    if (bool(v) if isinstance(c.fact[1], bool) else int(v)) != c.fact[1]:
+                        ok = False
+                        break
+                elif int(v) in c.fact[1]:
+                    ok = False
+                    break
+            if not ok:
+                continue
+            r = _char_eval(p.end[1], is_param, ch)
+            if r is None:
+                unknown = True
+            else:
+                res.add(bool(r))
+        out[ch] = (None if unknown or len(res) != 1 else next(iter(res)))
+    return out
+
